@@ -359,6 +359,57 @@ func (n *Node) Restart() error {
 	return n.start()
 }
 
+// StartInputs are the start-up inputs RestartWith may change. Nil / zero fields keep the current value.
+type StartInputs struct {
+	Genesis              *blockchain.Block // genesis block handed to Chain.Init and Executer.Init
+	ChainID              []byte
+	MaxBlockCache        int
+	KeepEventsForHeights *int
+	FreshABI             bool // the application starts from an empty state (a new MockABI with the same genesis parameters)
+}
+
+// RestartWith is Restart with other start-up inputs (a node restarted on its existing database with a
+// different genesis block, chain id, block cache size or event retention). The inputs stay in effect
+// (Node.Genesis, Node.Cfg, Node.ABI are overwritten): a caller that probes a start that must be refused
+// saves these three fields before and restores them before the next Restart. When Init fails the
+// error is returned and the node is left stopped-like: Chain and Executer exist, the block cache is
+// whatever Init left (Tip() may be nil).
+func (n *Node) RestartWith(in StartInputs) error {
+	n.stop()
+	n.restarts++
+	if in.Genesis != nil {
+		n.Genesis = in.Genesis
+	}
+	if len(in.ChainID) != 0 {
+		n.Cfg.ChainID = append([]byte{}, in.ChainID...)
+	}
+	if in.MaxBlockCache != 0 {
+		n.Cfg.MaxBlockCache = in.MaxBlockCache
+	}
+	if in.KeepEventsForHeights != nil {
+		k := *in.KeepEventsForHeights
+		n.Cfg.KeepEventsForHeights = &k
+	}
+	if in.FreshABI {
+		old := n.ABI
+		n.ABI = NewMockABI()
+		n.ABI.GenesisValidators = old.GenesisValidators
+		n.ABI.GenesisPrecommit = old.GenesisPrecommit
+		n.ABI.GenesisCertificate = old.GenesisCertificate
+		n.ABI.GenesisEvents = old.GenesisEvents
+	}
+	return n.start()
+}
+
+// ForeignGenesis builds a genesis block that differs from the node's: height and timestamp as given
+// (same validators, thresholds and genesis events).
+func (n *Node) ForeignGenesis(height, timestamp uint32) (*blockchain.Block, error) {
+	cfg := n.Cfg
+	cfg.GenesisHeight = height
+	cfg.GenesisTimestamp = timestamp
+	return BuildGenesis(&cfg, n.ABI.GenesisValidators)
+}
+
 // Reopen closes the database and opens it again from the file system (only with Cfg.FS), then
 // restarts. With crash=true and a *vfs.MemFS created by vfs.NewStrictMem(), everything that was
 // not synced is dropped first (simulated power loss).
